@@ -62,8 +62,11 @@ def run(tier):
     for w in m["witnesses"]:
         v.violation(w["key"], w["what"], w)
     tot["python.history_steps"] = m["counters"].get("history_steps", 0)
-    if tot["python.history_steps"] < 1000:
-        v.inconclusive_because("python history steps too low")
+    tot["python.far_queries"] = m["counters"].get("far_queries", 0)
+    tot["python.queries_a_fresh_instance_fails"] = m["counters"].get("fresh_failed", 0)
+    tot["python.history_local_steps"] = m["counters"].get("history_local_steps", 0)
+    if tot["python.history_steps"] < 1000 or tot["python.queries_a_fresh_instance_fails"] < 50:
+        v.inconclusive_because("python history steps too low (or no failing query reached): %r" % {k: n for k, n in tot.items() if k.startswith("python.")})
     if tot.get("pairs.hist.pair_zones", 0) < 655 or tot.get("hist.shared_steps", 0) < 100000 or tot.get("hist.manager_steps", 0) < 100000:
         v.inconclusive_because("deciding counters too low: %r" % tot)
     v.coverage.update({
@@ -75,7 +78,7 @@ def run(tier):
                 "getDeltaOffset, getAbbrev, getOffsetDateTime}, executed as op1(a); op2(b); op2(b); op1(a) on a fresh object; (2) 2..4 "
                 "TimeZone values of different zones bound to one processor, seeded interleavings of 7 operations incl. printTo/"
                 "printShortTo as first operation; (3) Basic/ExtendedZoneManager<1..4> holding 2*SIZE+1 zones created by name/id/"
-                "index/info, seeded interleavings; (4) the Python ZoneSpecifier on freshly compiled tables: seeded sequences of instants and "
+                "index/info, seeded interleavings; (4) the Python ZoneSpecifier on freshly compiled tables: seeded sequences of instants (inside the compiled range, at its edges, and far outside it where the cache fill fails; immediate repeats of a failed query) and "
                 "local date-times (with revisits and year-boundary instants) vs a fresh instance per query. Crashes are attributed to the open call by a signal-safe journal; a call that "
                 "burns > 4 s CPU is reported as a hang. distinct = distinct (zone, a, b, op1, op2) histories.",
         "samples": samples[:8],
